@@ -1,4 +1,5 @@
 import PyrefactModel.C15.LitLemmas
+import PyrefactModel.C15.BoolOpValues
 /-!
 # C15 — compile-time constant evaluation agrees with Python (fragment)
 
@@ -60,5 +61,25 @@ example : litValue (.bin .floordiv (.int 1) (.int 0)) = .unknown := by
   simp [litValue, impure, ev, binop, Val.asInt?]
 /-- `0 and f()` is unknown because of the call, although evaluation would skip it -/
 example : litValue (.and [.int 0, .othercall 0 []]) = .unknown := by simp [litValue, impure, impureL]
+
+/-- **`remove_redundant_boolop_values` keeps the value of the chain** (not only its truth value): for `and` and for
+`or`, for every operand list, every assignment of values to the operands whose known truth values are right, the kept
+operands evaluate (Python's value-returning short-circuit semantics) to what the whole chain evaluates to; and a
+non-empty chain never becomes empty. -/
+theorem boolop_values_sound {α : Type} (truthy : α → Bool) (l : List (Option Bool × α)) (h : Consistent truthy l) :
+    evalAnd truthy (keepAnd l) = evalAnd truthy (l.map (·.2)) ∧
+    evalOr truthy (keepOr false l) = evalOr truthy (l.map (·.2)) ∧
+    (l ≠ [] → keepAnd l ≠ [] ∧ keepOr false l ≠ []) :=
+  ⟨keepAnd_sound truthy l h, keepOr_sound truthy l false h rfl, fun hne => ⟨keepAnd_ne_nil l hne, keepOr_ne_nil l hne⟩⟩
+
+/-- the same for the rule as it runs, i.e. repeated by `processing.fix` on its own output any number of times -/
+theorem boolop_values_iterated_sound {α : Type} (truthy : α → Bool) (n : Nat) (l : List (Option Bool × α)) (h : Consistent truthy l) :
+    evalAnd truthy ((iterPass passAnd n l).map (·.2)) = evalAnd truthy (l.map (·.2)) ∧
+    evalOr truthy ((iterPass passOr n l).map (·.2)) = evalOr truthy (l.map (·.2)) :=
+  ⟨iterAnd_sound truthy n l h, iterOr_sound truthy n l h⟩
+
+/-- `1 and x and 0 and y` keeps `x and 0`; `0 or 5 or 6 or y` keeps `5 or y` -/
+example : keepAnd [(some true, 1), (none, 2), (some false, 3), (none, 4)] = [2, 3] := by simp [keepAnd]
+example : keepOr false [(some false, 1), (some true, 2), (some true, 3), (none, 4)] = [2, 4] := by simp [keepOr]
 
 end C15
